@@ -27,6 +27,7 @@ class PathAbort(Exception):
 class Config:
     def __init__(self, **kw):
         self.branch_timeout_ms = kw.get("branch_timeout_ms", 4000)
+        self.branch_probe_ms = kw.get("branch_probe_ms", 1500)  # full-solver pruning probe at a fork the LIA abstraction leaves open
         self.check_timeout_ms = kw.get("check_timeout_ms", 10000)
         self.max_paths = kw.get("max_paths", 4000)
         self.max_decisions = kw.get("max_decisions", 3000)
@@ -195,7 +196,7 @@ class PathCtx:
         can_t = not self._lia_unsat(term)
         can_f = can_t and not self._lia_unsat(nterm)
         if can_t and can_f:
-            self.solver.set("timeout", min(self.cfg.branch_timeout_ms, 1500))
+            self.solver.set("timeout", min(self.cfg.branch_timeout_ms, self.cfg.branch_probe_ms))
             can_f = self._check(nterm) != z3.unsat
             if can_f:
                 can_t = self._check(term) != z3.unsat
